@@ -314,3 +314,69 @@ theorem rel_whenMatches (c : RCtx) (hP : PrimsRespect c.P) {sel sel' : GoVal} (h
     · exact mrel_pure rfl
     · exact rel_whenMatches c hP hs es
 end
+
+/-! ## Whole renders -/
+
+theorem ORel.eq {α} {o o' : Prog.Outcome α} (h : ORel Eq o o') : o = o' := by
+  cases o <;> cases o' <;> simp_all [ORel]
+
+theorem PRel.runPure_eq {α} {p p' : Prog α} (h : PRel Eq p p') : p.runPure = p'.runPure := by
+  have := h.runPure
+  exact Prod.ext this.1 (ORel.eq this.2)
+
+theorem rel_renderRoot (c : RCtx) (hP : PrimsRespect c.P) (hO : OutRespect c.O) (hI : IncRespect c) (root : List Node)
+    {env env' : Env} (he : EnvRel env env') : PRel Eq (renderRoot c root env) (renderRoot c root env') := by
+  unfold renderRoot
+  refine PRel.bind (rel_renderList c hP hO hI root _ _ ⟨he, rfl⟩) (fun ⟨st, s⟩ ⟨st', s'⟩ h => ?_)
+  obtain ⟨h1, h2⟩ := h
+  simp only at h1 h2
+  subst h1
+  cases st with
+  | done => exact PRel.bind (mrel_wrapFailAt _ _ mrel_flush s s' h2) (fun _ _ _ => .ret rfl)
+  | brk e => exact .ret rfl
+  | cont e => exact .ret rfl
+
+theorem renderFileWith_rel (P : Prims) (O : OutPrims) (cfg : Cfg) (fs : FS)
+    (inner : Nat → Bytes → Env → Prog (Status × Bytes)) (hP : PrimsRespect P) (hO : OutRespect O)
+    (hI : IncRespect { P := P, O := O, cfg := cfg, inc := inner }) (line : Nat) (filename : Bytes)
+    {env env' : Env} (he : EnvRel env env') :
+    renderFileWith P O cfg fs inner line filename env = renderFileWith P O cfg fs inner line filename env' := by
+  unfold renderFileWith
+  simp only
+  split
+  · rfl
+  · split
+    · rfl
+    · rfl
+    · rfl
+    · next root _ =>
+      rw [(rel_renderRoot { P := P, O := O, cfg := cfg, inc := inner } hP hO hI root he).runPure_eq]
+
+theorem incRespect_mkCtx (P : Prims) (O : OutPrims) (cfg : Cfg) (fs : FS) (hP : PrimsRespect P) (hO : OutRespect O) :
+    ∀ fuel, IncRespect (mkCtx P O cfg fs fuel)
+  | 0 => fun _ _ _ _ _ => PRel.refl (fun _ => rfl) _
+  | n + 1 => by
+    intro line f env env' he
+    have ih := incRespect_mkCtx P O cfg fs hP hO n
+    show PRel Eq (renderFileWith P O cfg fs (incFuel P O cfg fs n) line f env)
+                 (renderFileWith P O cfg fs (incFuel P O cfg fs n) line f env')
+    rw [renderFileWith_rel P O cfg fs _ hP hO ih line f he]
+    exact PRel.refl (fun _ => rfl) _
+
+/-- rendering a compiled template against related variables: the same writes, the same outcome -/
+theorem frender_rel (P : Prims) (O : OutPrims) (cfg : Cfg) (fs : FS) (fuel : Nat) (hP : PrimsRespect P) (hO : OutRespect O)
+    (root : List Node) {env env' : Env} (he : EnvRel env env') :
+    PRel Eq (frender P O cfg fs fuel root env) (frender P O cfg fs fuel root env') := by
+  unfold frender
+  exact PRel.bind (rel_renderRoot (mkCtx P O cfg fs fuel) hP hO (incRespect_mkCtx P O cfg fs hP hO fuel) root he)
+    (fun st st' h => by subst h; exact PRel.refl (fun _ => rfl) _)
+
+theorem run_rel (P : Prims) (O : OutPrims) (cfg : Cfg) (fs : FS) (fuel : Nat) (hP : PrimsRespect P) (hO : OutRespect O)
+    (src : Bytes) (line : Nat) {env env' : Env} (he : EnvRel env env') :
+    run P O cfg fs fuel src line env = run P O cfg fs fuel src line env' := by
+  unfold run
+  split
+  · rfl
+  · rfl
+  · rfl
+  · next root _ => rw [(frender_rel P O cfg fs fuel hP hO root he).runPure_eq]
